@@ -243,7 +243,7 @@ def _unitq(case):
     ok, U = c.lib("UnitQuaternion(s,v)", L.UnitQuaternion, float(q[0]), [float(x) for x in q[1:]])
     if ok:
         c.eq("UnitQuaternion(s,v)/value", U.vec, qu, TOL)
-    for nrows in (1, 2, 3):
+    for nrows in (1, 2, 3, 4, 5):          # 4: the stack has the shape of a pose matrix and is still a stack of quaternions
         arr2 = np.stack([q * (k + 1.0) * (-1.0) ** k for k in range(nrows)])
         ok, U = c.lib("UnitQuaternion(Nx4)", L.UnitQuaternion, arr2)
         if ok and c.true("UnitQuaternion(Nx4)/len", len(U) == nrows, "N x 4 array of %d rows gave %d values" % (nrows, len(U))):
